@@ -337,10 +337,15 @@ def run(ctx, rep):
                  "drops the connection the waiter fails with AttributeError instead of getting its reply")
     _close_only_on_eof(ctx, rep)
     _serve_threaded_model(ctx, rep)
+    rep.rule("R13.15", "each receiver gets its own bytes from the stream; closing a socket wakes the threads blocked on it (= R05.1, R05.3, R05.9)")
     rep.rule("R13.13", "every request has a result object of its own, which is what the pending table holds (= R01.4)")
     K.share(ctx, rep, "c01", lambda o: o.rule == "R01.4" and ("sync_request" in o.key or "callback registered" in o.key), "R13.13", floor=2)
     rep.rule("R13.12", "completion callbacks: each runs exactly once even when its registration races with the delivery (= R15.3)")
     K.share(ctx, rep, "c15", lambda o: o.rule == "R15.3" and "callbacks run exactly once" in o.key, "R13.12", floor=1)
+    # what a receiver decodes after releasing the receive lock are its own bytes (each read returns fresh bytes, exactly as many
+    # as asked), and closing a socket another thread sleeps on wakes that thread (shutdown before close) (= R05.1, R05.9, R05.3)
+    K.share(ctx, rep, "c05", lambda o: (o.rule in ("R05.1", "R05.9") and "SocketStream.read" in o.key) or
+            (o.rule == "R05.3" and "SocketStream.close" in o.key), "R13.15", floor=3)
 
 
 def _close_only_on_eof(ctx, rep):
